@@ -352,8 +352,29 @@ class Model:
         if isinstance(expr, ast.Set):
             return {self.const(e, module, cls, d) for e in expr.elts}
         if isinstance(expr, ast.Dict):
-            return {self.const(k, module, cls, d): self.const(v, module, cls, d)
-                    for k, v in zip(expr.keys, expr.values)}
+            out = {}
+            for k, v in zip(expr.keys, expr.values):
+                if k is None:                       # {**other, ...}
+                    inner = self.const(v, module, cls, d)
+                    if not isinstance(inner, dict):
+                        raise AnalysisError(f"not a constant mapping: **{ast.unparse(v)[:40]}")
+                    out.update(inner)
+                else:
+                    out[self.const(k, module, cls, d)] = self.const(v, module, cls, d)
+            return out
+        if isinstance(expr, ast.DictComp) and len(expr.generators) == 1 and not expr.generators[0].ifs \
+                and isinstance(expr.generators[0].target, ast.Name):
+            g = expr.generators[0]
+            out = {}
+            for item in self.const(g.iter, module, cls, d):
+                class _Sub(ast.NodeTransformer):
+                    def visit_Name(self_, n):
+                        return ast.copy_location(ast.Constant(item), n) if n.id == g.target.id else n
+                import copy as _copy
+                k = _Sub().visit(_copy.deepcopy(expr.key))
+                v = _Sub().visit(_copy.deepcopy(expr.value))
+                out[self.const(k, module, cls, d)] = self.const(v, module, cls, d)
+            return out
         if isinstance(expr, ast.JoinedStr):
             parts = []
             for v in expr.values:
@@ -406,14 +427,21 @@ class Model:
                     inner = self.const(expr.args[0], module, cls, d)
                     if isinstance(inner, dict):
                         return {str(k).upper(): v for k, v in inner.items()}
+                if fn.id == "dict" and not expr.args:
+                    return {k.arg: self.const(k.value, module, cls, d) for k in expr.keywords if k.arg}
                 if fn.id in ("tuple", "list", "frozenset", "set") and \
                         len(expr.args) == 1:
                     v = self.const(expr.args[0], module, cls, d)
                     return {"tuple": tuple, "list": list, "set": set,
                             "frozenset": frozenset}[fn.id](v)
+            if isinstance(fn, ast.Attribute) and fn.attr == "fromkeys" and isinstance(fn.value, ast.Name) \
+                    and fn.value.id == "dict" and 1 <= len(expr.args) <= 2:
+                keys = self.const(expr.args[0], module, cls, d)
+                val = self.const(expr.args[1], module, cls, d) if len(expr.args) == 2 else None
+                return {k: val for k in keys}
             raise AnalysisError(
                 f"not a constant: {ast.unparse(expr)[:60]}")
-        raise AnalysisError(f"not a constant: {ast.unparse(expr)[:60]}")
+        raise AnalysisError(f"not a constant: {ast.unparse(expr)[:60] if expr is not None else None}")
 
     def class_const(self, ci, name):
         o, e = self.lookup_attr(ci, name)
